@@ -48,7 +48,7 @@ class DiskSpaceManager:
             )
         delete = []
         available = storage_limit_mb - space_used_mb
-        if storage_limit_mb == 0 if not is_network_blob else available >= 0:
+        if (storage_limit_mb == 0 and not is_network_blob) or available >= 0:
             return 0
         for blob_hash, file_size, _ in await self.db.get_stored_blobs(is_mine=False, is_network_blob=is_network_blob):
             delete.append(blob_hash)
